@@ -46,7 +46,7 @@ theorem load_import_p : ∃ r, load conv env pkgs schema none ["%import p".toLis
     shape_of_classify _ (by decide) (.import_ "p".toList) (by simp) (by decide)
   have hstrip : strip "p".toList = "p".toList := by decide
   unfold load
-  simp only [List.mapM_nil, pure, Except.pure, bind, Except.bind, List.isEmpty_nil, if_true]
+  simp only [List.mapM_nil, pure, Except.pure, bind, Except.bind, List.isEmpty_nil, if_true, Option.map_none]
   rw [parseLines, stepLine_import _ _ _ _ _ _ _ _ _ hs]
   unfold impStep
   rw [replace_nodollar _ _ _ _ _ (by decide), hstrip]
@@ -61,7 +61,7 @@ theorem load_import_p : ∃ r, load conv env pkgs schema none ["%import p".toLis
 theorem load_comment : ∃ r, load conv env pkgs schema none ["# c".toList] [] = .ok r := by
   have hs : lineShape (strip "# c".toList) = .skip := shape_of_classify _ (by decide) .skip (by simp) (by decide)
   unfold load
-  simp only [List.mapM_nil, pure, Except.pure, bind, Except.bind, List.isEmpty_nil, if_true]
+  simp only [List.mapM_nil, pure, Except.pure, bind, Except.bind, List.isEmpty_nil, if_true, Option.map_none]
   rw [parseLines, stepLine]
   simp only [hs, bind, Except.bind]
   rw [parseLines]
@@ -123,7 +123,7 @@ theorem load_import_then_use :
     shape_of_classify _ (by decide) (.open_ "leak".toList none true) (by simp) (by decide)
   have hstrip : strip "p".toList = "p".toList := by decide
   unfold load
-  simp only [List.mapM_nil, pure, Except.pure, bind, Except.bind, List.isEmpty_nil, if_true]
+  simp only [List.mapM_nil, pure, Except.pure, bind, Except.bind, List.isEmpty_nil, if_true, Option.map_none]
   rw [parseLines, stepLine_import _ _ _ _ _ _ _ _ _ hs1]
   unfold impStep
   rw [replace_nodollar _ _ _ _ _ (by decide), hstrip]
@@ -146,7 +146,7 @@ theorem load_use_then_import :
     shape_of_classify _ (by decide) (.open_ "leak".toList none true) (by simp) (by decide)
   have hstart : lsStart st0 "leak".toList none = .error (.cfg { kind := .schema, tag := "unknown type name" }) := rfl
   unfold load
-  simp only [List.mapM_nil, pure, Except.pure, bind, Except.bind, List.isEmpty_nil, if_true]
+  simp only [List.mapM_nil, pure, Except.pure, bind, Except.bind, List.isEmpty_nil, if_true, Option.map_none]
   rw [parseLines, stepLine]
   simp only [hs2, openSection, loaderCtx]
   rw [show lsStart { schema := schema, privateSchema := false, handlers := [], stack := [newMatcher schema.top none none], pkgs := pkgs, conv := conv } "leak".toList none = _ from hstart]
